@@ -15,6 +15,7 @@ import (
 	"runtime"
 	"sort"
 	"sync"
+	"time"
 )
 
 // ---------- configuration seams ----------
@@ -118,6 +119,7 @@ type Strategy interface {
 // Sched is one controlled execution.
 type Sched struct {
 	gs        []*G
+	sorted    []*G // live and finished goroutines in id order
 	parked    chan *G
 	strat     Strategy
 	last      *G
@@ -140,6 +142,10 @@ type Sched struct {
 
 var cur *Sched
 
+// Deadline, when non-zero, cuts a controlled execution that is still running at that time (reported as a
+// cap by the explorer, never as a violation).
+var Deadline time.Time
+
 // Active reports whether a controlled execution is running.
 func Active() bool { return cur != nil }
 
@@ -157,6 +163,7 @@ func Run(body func(), st Strategy) *Sched {
 	defer func() { cur = nil }()
 	root := &G{id: "0", resume: make(chan bool), vc: VC{}}
 	s.gs = append(s.gs, root)
+	s.sorted = append(s.sorted, root)
 	s.launch(root, body)
 	s.loop()
 	return s
@@ -222,14 +229,11 @@ func (s *Sched) loop() {
 		if s.last != nil && s.enabled(s.last) {
 			en = append(en, s.last)
 		}
-		rest := []*G{}
-		for _, g := range s.gs {
+		for _, g := range s.sorted {
 			if g != s.last && s.enabled(g) {
-				rest = append(rest, g)
+				en = append(en, g)
 			}
 		}
-		sort.Slice(rest, func(i, j int) bool { return rest[i].id < rest[j].id })
-		en = append(en, rest...)
 		if len(en) == 0 {
 			alive := 0
 			for _, g := range s.gs {
@@ -248,20 +252,19 @@ func (s *Sched) loop() {
 			}
 			return
 		}
-		if s.Steps >= s.StepLimit {
+		if s.Steps >= s.StepLimit || (s.Steps&255 == 255 && !Deadline.IsZero() && time.Now().After(Deadline)) {
 			s.HitLimit = true
 			s.WasCut = true
 			s.abortAll()
 			return
 		}
-		var view []GView
-		for _, g := range s.gs {
+		view := make([]GView, 0, len(s.sorted))
+		for _, g := range s.sorted {
 			if g.done {
 				continue
 			}
 			view = append(view, GView{ID: g.id, Enabled: s.enabled(g), Kind: g.kind, Obj: g.obj, VC: g.vc})
 		}
-		sort.Slice(view, func(i, j int) bool { return view[i].ID < view[j].ID })
 		ids := make([]string, len(en))
 		for i, g := range en {
 			ids[i] = g.id
@@ -386,6 +389,10 @@ func spawn(f func()) {
 	parent.nspawn++
 	parent.tick()
 	s.gs = append(s.gs, g)
+	k := sort.Search(len(s.sorted), func(i int) bool { return s.sorted[i].id >= g.id })
+	s.sorted = append(s.sorted, nil)
+	copy(s.sorted[k+1:], s.sorted[k:])
+	s.sorted[k] = g
 	s.launch(g, f)
 }
 
